@@ -250,12 +250,16 @@ def generate(rng, tier):
                     "addr": f"{scheme}://h{i}.test:80{i}0" + rng.choice(["", "", "", "/base", "/a/b"]),
                     "form": form, "ids": ids})
         nodes.append(_GNode("base", False, i, born=len(ops)))
-    threaded = rng.random() < 0.33
+    long_run = rng.random() < 0.04
+    threaded = rng.random() < (0.33 if not long_run else 0.1)
     nthreads = rng.randint(2, 3) if threaded else 1
     fault_free = rng.random() < 0.3
     fault_rate = 0.0 if fault_free else rng.choice([0.05, 0.15, 0.3])
     kinds = [x for x in hw.FAULT_KINDS if rng.random() < 0.6]
     n_ops = rng.randint(8, 70 if tier != "quick" else 30)
+    if long_run:
+        # a long life of one family of connections: hundreds of requests
+        n_ops = rng.choice([40, 70, 130, 260, 520])
     bias_old = 0
     while len(ops) < n_ops:
         r = rng.random()
